@@ -77,13 +77,13 @@ pub unsafe fn stub_cas_weak<T: Copy>(dst: *mut T, old: T, new: T, _s: core::sync
 fn schedule(same_pool: bool, env_ops: u8) {
     let b = MemoryBudget::with_limit(4 * 1024 * 1024);
     let limit = b.total_limit();
-    // arbitrary reachable pre-state: some memory already in use in two pools
-    let (p0, p1) = (any_pool(), any_pool());
-    let (n0, n1): (usize, usize) = (kani::any(), kani::any());
-    kani::assume(n0 <= limit && n1 <= limit);
+    // arbitrary reachable pre-state: some memory already in use in one pool
+    let p0 = any_pool();
+    let n0: usize = kani::any();
+    kani::assume(n0 <= limit);
     unsafe { ENV_LEFT = 0; }
-    let r0 = core::mem::ManuallyDrop::new(b.allocate(p0, n0)); let r1 = core::mem::ManuallyDrop::new(b.allocate(p1, n1));
-    kani::assume(r0.is_ok() && r1.is_ok());
+    let r0 = core::mem::ManuallyDrop::new(b.allocate(p0, n0));
+    kani::assume(r0.is_ok());
     let base = b.total_used();
     assert!(base <= limit, "role=prestate_within_limit");
     // thread A
@@ -99,7 +99,7 @@ fn schedule(same_pool: bool, env_ops: u8) {
     assert!(b.total_used() <= limit, "role=total_usage_never_exceeds_limit_under_interleaving");
 }
 
-// @vt prop=C39 tier=quick bound="2 threads, same pool: thread A's allocate with one complete allocate of thread B (same pool, any size) at A's commit point; A may retry once (unwind 3); arbitrary two-allocation pre-state; 4 MiB budget" outside="interference between A's individual counter loads; 3+ threads here; weak-memory effects" timeout=1200 mem=16 replay=none
+// @vt prop=C39 tier=quick bound="2 threads, same pool: thread A's allocate with one complete allocate of thread B (same pool, any size) at A's commit point; A may retry once (unwind 3); arbitrary one-allocation pre-state; 4 MiB budget" outside="interference between A's individual counter loads; 3+ threads here; weak-memory effects" timeout=1800 mem=16 replay=none
 #[cfg(kani)]
 #[kani::proof]
 #[kani::stub(eyre::capture_handler, crate::common::stub_capture_handler)]
@@ -109,12 +109,12 @@ fn schedule(same_pool: bool, env_ops: u8) {
 #[kani::unwind(4)]
 pub fn c39_schedule_same_pool() { schedule(true, 1); }
 
-// @vt prop=C39 tier=quick bound="2 threads, different pools: thread A's allocate with one complete allocate of thread B (another pool, any size) at A's commit point; arbitrary two-allocation pre-state; 4 MiB budget" outside="interference between A's individual counter loads; weak-memory effects" timeout=1200 mem=16 replay=none
+// @vt prop=C39 tier=quick bound="2 threads, different pools: thread A's allocate with one complete allocate of thread B (another pool, any size) at A's commit point; arbitrary one-allocation pre-state; 4 MiB budget" outside="interference between A's individual counter loads; weak-memory effects" timeout=1800 mem=16 replay=none
 #[cfg(kani)]
 #[kani::proof]
 #[kani::stub(eyre::capture_handler, crate::common::stub_capture_handler)]
 #[kani::stub(alloc::fmt::format, crate::common::stub_format)]
 #[kani::stub(<eyre::Report as core::ops::Drop>::drop, crate::common::stub_report_drop)]
 #[kani::stub(core::sync::atomic::atomic_compare_exchange_weak, stub_cas_weak)]
-#[kani::unwind(4)]
+#[kani::unwind(3)]
 pub fn c39_schedule_cross_pool() { schedule(false, 1); }
